@@ -239,6 +239,20 @@ func (cl *ipcClient) send(command string, seq uint64, body any) {
 	synctest.Wait()
 }
 
+// sendBatch writes several requests in one piece (a pipelining client): the server finds them
+// all in its read buffer at once.
+func (cl *ipcClient) sendBatch(cmds []string, seqs []uint64, bodies []any) {
+	var vs []any
+	for i := range cmds {
+		vs = append(vs, map[string]any{"Command": cmds[i], "Seq": seqs[i]})
+		if bodies[i] != nil {
+			vs = append(vs, bodies[i])
+		}
+	}
+	cl.sendq <- vs
+	synctest.Wait()
+}
+
 func (cl *ipcClient) sendRaw(b []byte) {
 	cl.sendq <- []any{rawBytes(b)}
 	synctest.Wait()
